@@ -66,9 +66,9 @@ def parse_proof_file(path):
         if s.startswith("//@defaults"):
             defaults = dict(re.findall(r"(\w+)=((?:\"[^\"]*\")|\S+)", s[len("//@defaults"):]))
             continue
-        mm = re.match(r"(pub\s+)?mod\s+(\w+)\s*\{", s)
+        mm = re.match(r"(?:pub(?:\([^)]*\))?\s+)?mod\s+(\w+)\s*\{", s)
         if mm and cur_mod is None:
-            cur_mod = mm.group(2)
+            cur_mod = mm.group(1)
         if s.startswith("//@harness"):
             pending = dict(defaults)
             pending.update(dict(re.findall(r"(\w+)=((?:\"[^\"]*\")|\S+)", s[len("//@harness"):])))
